@@ -81,6 +81,158 @@ def r1(ctx, rule="C16.R1", only=None):
     return cleared
 
 
+
+def eval_remove_replica(f, ns_byte=7, has_succ=True):
+    """Store::remove_replica evaluated (K6') on a concrete namespace id (32 x ns_byte): Store::modify runs the transaction body,
+    every table call is recorded with its key / bounds rendered. Returns (result, [(table, op, rendered key or bounds)])."""
+    from . import feval as E
+    types = tables.table_types(f)
+    log = []
+    ns_hex = "%02x" % ns_byte * 32
+    succ_hex = ("%02x" % ns_byte * 31) + "%02x" % (ns_byte + 1) if ns_byte < 255 else None
+    inl = [x.path for x in f.bodies.values() if x.path.startswith("store::fs::bounds::") and not x.path.endswith("increment_by_one")]
+
+    def oracle(kind, name, payload, site):
+        if kind != "call":
+            return None
+        t, args, it = payload
+        if callee_matches(t, r"store::fs::Store::modify$"):
+            it.heap.setdefault("tables", E.Tok("tables"))
+            return it.apply(args[1], [E.href("tables")])
+        if name == "contains" and "HashSet" in (t["f"].get("full") or ""):
+            return E.Int(0)
+        ct = tables.call_table(t, types)
+        if ct:
+            log.append((ct[0], ct[1], E.describe(it.resolve(args[1]), f) if len(args) > 1 else ""))
+            return E.Ok(E.NONE)
+        if name == "increment_by_one":
+            cur = it.tokname(args[0]).strip("&*")
+            if cur == "id:" + ns_hex and succ_hex and has_succ:
+                if args[0][0] == "ref":
+                    it.write_loc(args[0][1], E.Tok("id:" + succ_hex))
+                return E.Int(1)
+            return E.Int(0)
+        if name in ("to_bytes", "as_bytes") and args and it.tokname(args[0]).strip("&*") == "ns":
+            return E.Tok("id:" + ns_hex)
+        if name == "new" and callee_matches(t, r"Bytes::new"):
+            return E.Tok("empty")
+        if name == "as_ref":
+            return args[0]
+        return None
+    try:
+        ret, itp = E.run_it(f, RR, [E.href("self"), E.href("namespace")], {"self": E.Tok("store"), "namespace": E.Tok("ns")}, oracle, inline=inl)
+        return E.describe(ret, f), log
+    except E.Unsupported as e:
+        return "UNSUPPORTED-FORM: %s" % e, log
+
+
+def _split_top(sx):
+    out, depth, cur = [], 0, ""
+    for ch in sx:
+        if ch in "([":
+            depth += 1
+        if ch in ")]":
+            depth -= 1
+        if ch == "," and depth == 0:
+            out.append(cur)
+            cur = ""
+        else:
+            cur += ch
+    if cur:
+        out.append(cur)
+    return out
+
+
+def _comp(c):
+    """a rendered key component as bytes"""
+    import re as _re
+    c = c.strip()
+    if c == "empty":
+        return b""
+    if c.startswith("id:"):
+        return bytes.fromhex(c[3:])
+    m = _re.fullmatch(r"\[(\d+); _\]", c)
+    if m:
+        return bytes([int(m.group(1))]) * 32
+    raise ValueError("component %r" % c)
+
+
+def _tuple(tx):
+    tx = tx.strip()
+    if tx.startswith("(") and tx.endswith(")"):
+        return tuple(_comp(c) for c in _split_top(tx[1:-1]))
+    return (_comp(tx),)
+
+
+def _range(rendered):
+    """(lower, upper) with each bound (kind, key tuple) from the rendering of a bounds value: a pair of std Bounds, or a
+    RangeInclusive / Range built with new() or as a struct"""
+    import re as _re
+    r = rendered.strip()
+    inner = r[r.index("(") + 1:-1] if "(" in r else r
+    parts = _split_top(inner)
+    head = r[:r.index("(")] if "(" in r else ""
+    if len(parts) == 2 and any(p.strip().startswith(("Included(", "Excluded(", "Unbounded")) for p in parts):
+        def bound(px):
+            px = px.strip()
+            if px == "Unbounded":
+                return ("unbounded", None)
+            k = px[:px.index("(")]
+            return ({"Included": "incl", "Excluded": "excl"}[k], _tuple(px[px.index("(") + 1:-1]))
+        return bound(parts[0]), bound(parts[1])
+    if len(parts) == 2 and head in ("new", "RangeInclusive"):
+        return ("incl", _tuple(parts[0])), ("incl", _tuple(parts[1]))
+    if len(parts) == 2 and head == "Range":
+        return ("incl", _tuple(parts[0])), ("excl", _tuple(parts[1]))
+    raise ValueError("range %r" % rendered)
+
+
+def _inside(key, rng):
+    (lk, lo), (uk, up) = rng
+    if lk == "incl" and key < lo:
+        return False
+    if lk == "excl" and key <= lo:
+        return False
+    if uk == "incl" and key > up:
+        return False
+    if uk == "excl" and key >= up:
+        return False
+    return True
+
+
+def removal_ranges(ctx):
+    """what remove_replica erases, decided on sample keys: every row of the removed document lies inside the erased key range of
+    its table, no row of a neighbouring document does"""
+    f = ctx.facts
+    b = f.body(RR)
+    authors = [bytes([0]) * 32, bytes([0]) * 31 + b"\x01", bytes([0x7f]) * 32, bytes([255]) * 31 + b"\xfe", bytes([255]) * 32]
+    keys = [b"", b"\x00", b"k", b"\xff\xff"]
+    for ns_byte, has_succ in ((7, True), (255, False)):
+        got, log = eval_remove_replica(f, ns_byte, has_succ)
+        ns = bytes([ns_byte]) * 32
+        below = bytes([ns_byte]) * 31 + bytes([ns_byte - 1])
+        above = (bytes([ns_byte]) * 31 + bytes([ns_byte + 1])) if ns_byte < 255 else None
+        shapes = {"records": lambda n, a, k: (n, a, k), "records_by_key": lambda n, a, k: (n, k, a), "latest_per_author": lambda n, a, k: (n, a)}
+        seen = set()
+        for table, op, rendered in log:
+            if table not in shapes:
+                if op in ("remove", "remove_all"):
+                    seen.add(table)
+                    ctx.check(rendered == "id:" + ns.hex(), "C16.R2", RR, "erased-key.%s[ns=%02x..]" % (table, ns_byte), "%s(%s); spec: the key is the namespace id" % (op, rendered), b.sp)
+                continue
+            seen.add(table)
+            try:
+                rng = _range(rendered)
+                mk = shapes[table]
+                missing = [mk(ns, a, k) for a in authors for k in keys if not _inside(mk(ns, a, k), rng)]
+                foreign = [mk(n2, a, k) for n2 in (below, above) if n2 is not None for a in authors for k in keys if _inside(mk(n2, a, k), rng)]
+                ok = not missing and not foreign
+                det = "%s(%s): rows of this document outside the range: %s; rows of neighbouring documents inside: %s" % (op, rendered, [tuple(x.hex()[:8] for x in m) for m in missing[:3]], [tuple(x.hex()[:8] for x in m) for m in foreign[:3]])
+            except ValueError as e:
+                ok, det = False, "UNSUPPORTED-FORM: cannot read the bounds %s (%s)" % (rendered, e)
+            ctx.check(ok, "C16.R2", RR, "erased-range-is-exactly-this-document.%s[ns=%02x..]" % (table, ns_byte), det, b.sp)
+        ctx.check(got == "Ok(())" and {"records", "records_by_key", "latest_per_author", "namespaces"} <= seen, "C16.R2", RR, "removal-evaluated[ns=%02x..]" % ns_byte, "returns %s; tables touched %s" % (got, sorted(seen)), b.sp)
+
 def r2(ctx):
     f = ctx.facts
     types = tables.table_types(f)
@@ -147,7 +299,8 @@ def r2(ctx):
         if o["status"] != "holds":
             ctx.violations.append(o)
     ctx.analysed_bodies |= sub.analysed_bodies
-    ctx.floor("C16.R2", 7)
+    removal_ranges(ctx)
+    ctx.floor("C16.R2", 20)
 
 
 def r3(ctx):
